@@ -138,3 +138,28 @@ Proof.
   intros H. destruct (H (mkV2 0 0)) as (_ & _ & (q & Hq & Dq)). rewrite Hc in Dq.
   rewrite Rabs_Ropp, Rabs_pos_eq in Dq by lra. pose proof (Hfar q Hq). lra.
 Qed.
+
+(* (3) Union2D with the plain minimum prunes operands by their bounding boxes.  Without the hypotheses
+   of the pruning (prune_ok2: here an operand whose solid is empty, the intersection of two disjoint
+   boxes, so that its value exceeds the distance to the farthest point of its stored box) the pruned
+   evaluation drops the operand that attains the minimum and is not even continuous.
+   Evaluated with exact rationals (QOps; no square root is taken on these evaluation paths):
+   f(-21/2, 0) = 23/2 and f(-21/2, 1/2) = 19/2: a jump of 2 over a distance of 1/2. *)
+From Coq Require Import QArith.
+From Sdfx Require Import Num.QInst.
+
+Definition qtr (tx ty : Q) : list Q := [1; 0; tx; 0; 1; ty; 0; 0; 1]%Q.
+Definition qbox : Shape2 QOps := @Box2D QOps (mkV2 2 2)%Q 0%Q.
+Definition prune_witness : Shape2 QOps :=
+  @Union2 QOps (@Shape.MinDef QOps)
+    [ @Intersect2 QOps (@Shape.MaxDef QOps) (@Transform2 QOps qbox (qtr (-2) 0)) (@Transform2 QOps qbox (qtr 2 0));
+      @Transform2 QOps qbox (qtr (- (21 # 2)) 11) ].
+
+Definition prune_values : option (Q * Q) :=
+  match @build2 QOps prune_witness with
+  | Some o => Some (Qred (ev2 o (mkV2 (- (21 # 2)) 0)%Q), Qred (ev2 o (mkV2 (- (21 # 2)) (1 # 2))%Q))
+  | None => None
+  end.
+
+Theorem union2_prune_refuted : prune_values = Some (23 # 2, 19 # 2)%Q.
+Proof. vm_compute. reflexivity. Qed.
